@@ -3,6 +3,7 @@ package props
 import (
 	"fmt"
 	"go/token"
+	"go/types"
 	"strings"
 
 	"golang.org/x/tools/go/ssa"
@@ -246,47 +247,8 @@ func runC19(c *core.Ctx, o Options) {
 		}
 		c.Check(ok && n > 0, "H2", "HandlerPool.handlersByMsgType", "returns the registered handlers in registration order", byType.Pos(), "a copy append(empty, handlers...) of the type's list", "the snapshot is not the type's list in order: "+why)
 	}
-	for _, dir := range []string{"Outgoing", "Incoming"} {
-		fn := c.Func("", dir+"HandlerPool.Range")
-		if !c.Anchor(dir+" Range", fn != nil, dir+"HandlerPool.Range", posOf(fn)) {
-			continue
-		}
-		rc := findRangeCall(fn)
-		name := dir + "HandlerPool.Range"
-		if rc == nil {
-			c.Ob("H2", name, "iterates the handlers", fn.Pos()).Fail("no loop calling f(handler) found")
-			continue
-		}
-		c.Check(rc.Ascending && strings.HasSuffix(an.Render(rc.Over), ".handlersByMsgType(msgType)"), "H2", name, "visits handlersByMsgType(msgType) in ascending index order", rc.Call.Pos(),
-			"range over the snapshot of the requested type", "Range does not walk the requested type's handlers front to back")
-		c.Check(rc.TrueNext == rc.Head && rc.Head != nil, "H2", name, "continues with the next handler after a true result", rc.Call.Pos(), "true → next iteration", "a true result does not continue with the next handler")
-		if dir == "Outgoing" {
-			okF := false
-			if rc.FalseExit != nil {
-				if ret, ok := rc.FalseExit.Instrs[len(rc.FalseExit.Instrs)-1].(*ssa.Return); ok && len(ret.Results) == 1 {
-					if b, isC := an.ConstBool(ret.Results[0]); isC && !b {
-						okF = true
-					}
-				}
-			}
-			c.Check(okF, "H2", name, "returns false at the first refusal", rc.Call.Pos(), "false → return false", "a refusal does not make Range return false immediately")
-			paths, _ := an.EnumPaths(fn, 32)
-			okT := false
-			for _, p := range paths {
-				if p.Return != nil && len(p.Results) == 1 && p.Results[0] == "true" {
-					okT = true
-					for _, a := range p.Atoms {
-						if a.Rel == "false" && strings.HasPrefix(a.L, "f(") {
-							okT = false
-						}
-					}
-				}
-			}
-			c.Check(okT, "H2", name, "returns true when no handler refused", fn.Pos(), "loop exhausted → true", "Range does not return true after all handlers accepted")
-		} else {
-			c.Check(rc.FalseExit != nil && leadsToReturnWithoutCalls(rc.FalseExit), "H2", name, "stops at the first false result", rc.Call.Pos(), "false → leave the loop", "a false result does not stop the traversal")
-		}
-	}
+	checkPoolRange(c, "H2", "Outgoing", "Incoming")
+	checkPoolGrowOnly(c, "H2")
 
 	// ---- H3 store first
 	s := newSess(c)
@@ -378,4 +340,133 @@ func runC19(c *core.Ctx, o Options) {
 	}
 	c.RuleMin = map[string]int{"H1": 6, "H2": 7, "H3": 3, "H4": 4}
 	c.MinObl = 20
+}
+
+// checkPoolRange: the Range method of the given handler pools walks the snapshot of the requested type front to back, continues
+// after a true result and stops at the first false one (the outgoing Range then returns false, and true when nobody refused).
+func checkPoolRange(c *core.Ctx, rule string, dirs ...string) {
+	for _, dir := range dirs {
+		fn := c.Func("", dir+"HandlerPool.Range")
+		if !c.Anchor(dir+" Range", fn != nil, dir+"HandlerPool.Range", posOf(fn)) {
+			continue
+		}
+		rc := findRangeCall(fn)
+		name := dir + "HandlerPool.Range"
+		if rc == nil {
+			c.Ob(rule, name, "iterates the handlers", fn.Pos()).Fail("no loop calling f(handler) found")
+			continue
+		}
+		c.Check(rc.Ascending && strings.HasSuffix(an.Render(rc.Over), ".handlersByMsgType(msgType)"), rule, name, "visits handlersByMsgType(msgType) in ascending index order", rc.Call.Pos(),
+			"range over the snapshot of the requested type", "Range does not walk the requested type's handlers front to back")
+		c.Check(rc.TrueNext == rc.Head && rc.Head != nil, rule, name, "continues with the next handler after a true result", rc.Call.Pos(), "true → next iteration", "a true result does not continue with the next handler")
+		if dir == "Outgoing" {
+			okF := false
+			if rc.FalseExit != nil {
+				if ret, ok := rc.FalseExit.Instrs[len(rc.FalseExit.Instrs)-1].(*ssa.Return); ok && len(ret.Results) == 1 {
+					if b, isC := an.ConstBool(ret.Results[0]); isC && !b {
+						okF = true
+					}
+				}
+			}
+			c.Check(okF, rule, name, "returns false at the first refusal", rc.Call.Pos(), "false → return false", "a refusal does not make Range return false immediately")
+			paths, _ := an.EnumPaths(fn, 32)
+			okT := false
+			for _, p := range paths {
+				if p.Return != nil && len(p.Results) == 1 && p.Results[0] == "true" {
+					okT = true
+					for _, a := range p.Atoms {
+						if a.Rel == "false" && strings.HasPrefix(a.L, "f(") {
+							okT = false
+						}
+					}
+				}
+			}
+			c.Check(okT, rule, name, "returns true when no handler refused", fn.Pos(), "loop exhausted → true", "Range does not return true after all handlers accepted")
+		} else {
+			c.Check(rc.FalseExit != nil && leadsToReturnWithoutCalls(rc.FalseExit), rule, name, "stops at the first false result", rc.Call.Pos(), "false → leave the loop", "a false result does not stop the traversal")
+		}
+	}
+}
+
+// checkPoolGrowOnly: registered handlers stay registered, at their position. Every update of HandlerPool.handlers is
+// handlers[k] = append(handlers[k], h) or the creation of an empty list for a missing key, and the only delete removes an entry
+// whose list is empty. (Remove is a no-op on non-empty lists today; a removal that shifts or reorders elements would let an
+// application's stale identifier remove the session's own handlers from the shared pool, or reorder the survivors.)
+func checkPoolGrowOnly(c *core.Ctx, rule string) {
+	hf := c.Field("", "HandlerPool", "handlers")
+	if !c.Anchor("handler pool map", hf != nil, "HandlerPool.handlers", token.NoPos) {
+		return
+	}
+	isPoolMap := func(v ssa.Value) bool {
+		f, _ := an.LoadedField(v)
+		return f == hf
+	}
+	n := 0
+	for _, fn := range pkgFuncs(c.SSAPkg("")) {
+		an.AllInstrs(fn, func(in ssa.Instruction) {
+			switch x := in.(type) {
+			case *ssa.MapUpdate:
+				if !isPoolMap(x.Map) {
+					return
+				}
+				n++
+				ok := false
+				switch v := x.Value.(type) {
+				case *ssa.MakeSlice:
+					if k, isK := an.ConstInt(v.Len); isK && k == 0 {
+						ok = true // an empty list for a new key
+					}
+				case *ssa.Slice:
+					// make([]T, 0) with a constant size is lowered to new([0]T)[:0]
+					if al, isAl := v.X.(*ssa.Alloc); isAl {
+						if arr, isArr := an.Deref(al.Type()).Underlying().(*types.Array); isArr && arr.Len() == 0 {
+							ok = true
+						}
+					}
+				case *ssa.Call:
+					if b, isB := v.Call.Value.(*ssa.Builtin); isB && b.Name() == "append" && len(v.Call.Args) == 2 {
+						if lk, isL := v.Call.Args[0].(*ssa.Lookup); isL && isPoolMap(lk.X) && lk.Index == x.Key {
+							if elems, isLit := an.SliceElems(v.Call.Args[1]); isLit && len(elems) == 1 {
+								ok = true
+							}
+						}
+					}
+				}
+				c.Check(ok, rule, fn.Name(), "the handler list of a type only grows at its end", x.Pos(), "handlers[k] = append(handlers[k], h)",
+					"handlers["+an.Render(x.Key)+"] is set to "+an.Render(x.Value)+": registered handlers are removed, moved or replaced — the session's own handlers (store, timer refresh) live in the same lists and are identified only by position")
+			case *ssa.Call:
+				b, isB := x.Call.Value.(*ssa.Builtin)
+				if !isB || b.Name() != "delete" || !isPoolMap(x.Call.Args[0]) {
+					return
+				}
+				n++
+				key := an.Render(x.Call.Args[1])
+				paths, _ := an.EnumPaths(fn, 64)
+				ok, np := true, 0
+				for _, p := range paths {
+					if !p.Passes(x) {
+						continue
+					}
+					np++
+					nonEmpty := false
+					for _, a := range p.Atoms {
+						if strings.HasPrefix(a.L, "len(") && strings.HasSuffix(a.L, ".handlers["+key+"])") || strings.HasPrefix(a.R, "len(") && strings.HasSuffix(a.R, ".handlers["+key+"])") {
+							lenTerm := a.L
+							if !strings.HasPrefix(lenTerm, "len(") {
+								lenTerm = a.R
+							}
+							if !an.PathFeasible(p, an.Atom{L: "0", Rel: "<", R: lenTerm}) {
+								nonEmpty = true // the path entails len == 0
+							}
+						}
+					}
+					if !nonEmpty {
+						ok = false
+					}
+				}
+				c.Check(ok && np > 0, rule, fn.Name(), "only an empty handler list is deleted", x.Pos(), "len(handlers[k]) == 0 ⇒ delete", "a handler list is deleted without having been found empty")
+			}
+		})
+	}
+	c.Check(n >= 2, rule, "HandlerPool", "updates of the handler map found", token.NoPos, fmt.Sprint(n), fmt.Sprintf("%d updates of HandlerPool.handlers found (append in add, delete in free were confirmed)", n))
 }
